@@ -343,7 +343,7 @@ func (vfs *MemFS) Link(oldname, newname string) error {
 	nParent.mu.Lock()
 	defer nParent.mu.Unlock()
 
-	if !nParent.checkPermission(avfs.OpenWrite, vfs.User()) {
+	if !nParent.checkPermission(avfs.OpenWrite|avfs.OpenLookup, vfs.User()) {
 		return &os.LinkError{Op: op, Old: oldname, New: newname, Err: vfs.err.PermDenied}
 	}
 
@@ -679,7 +679,7 @@ func (vfs *MemFS) Remove(name string) error {
 	parent.mu.Lock()
 	defer parent.mu.Unlock()
 
-	if !parent.checkPermission(avfs.OpenWrite, vfs.User()) {
+	if !parent.checkPermission(avfs.OpenWrite|avfs.OpenLookup, vfs.User()) {
 		return &fs.PathError{Op: op, Path: name, Err: vfs.err.PermDenied}
 	}
 
@@ -741,7 +741,7 @@ func (vfs *MemFS) RemoveAll(path string) error {
 		}
 	}
 
-	if ok := parent.checkPermission(avfs.OpenWrite, vfs.User()); !ok {
+	if ok := parent.checkPermission(avfs.OpenWrite|avfs.OpenLookup, vfs.User()); !ok {
 		return &fs.PathError{Op: op, Path: path, Err: vfs.err.PermDenied}
 	}
 
@@ -758,7 +758,7 @@ func (vfs *MemFS) removeAll(parent *dirNode) error {
 	parent.mu.Lock()
 	defer parent.mu.Unlock()
 
-	if ok := parent.checkPermission(avfs.OpenWrite, vfs.User()); !ok {
+	if ok := parent.checkPermission(avfs.OpenWrite|avfs.OpenLookup, vfs.User()); !ok {
 		return vfs.err.PermDenied
 	}
 
@@ -798,7 +798,7 @@ func (vfs *MemFS) Rename(oldpath, newpath string) error {
 	oParent.mu.Lock()
 	defer oParent.mu.Unlock()
 
-	if !oParent.checkPermission(avfs.OpenWrite, vfs.User()) {
+	if !oParent.checkPermission(avfs.OpenWrite|avfs.OpenLookup, vfs.User()) {
 		return &os.LinkError{Op: op, Old: oldpath, New: newpath, Err: vfs.err.PermDenied}
 	}
 
@@ -806,7 +806,7 @@ func (vfs *MemFS) Rename(oldpath, newpath string) error {
 		nParent.mu.Lock()
 		defer nParent.mu.Unlock()
 
-		if !nParent.checkPermission(avfs.OpenWrite, vfs.User()) {
+		if !nParent.checkPermission(avfs.OpenWrite|avfs.OpenLookup, vfs.User()) {
 			return &os.LinkError{Op: op, Old: oldpath, New: newpath, Err: vfs.err.PermDenied}
 		}
 	}
@@ -942,7 +942,7 @@ func (vfs *MemFS) Symlink(oldname, newname string) error {
 	parent.mu.Lock()
 	defer parent.mu.Unlock()
 
-	if !parent.checkPermission(avfs.OpenWrite, vfs.User()) {
+	if !parent.checkPermission(avfs.OpenWrite|avfs.OpenLookup, vfs.User()) {
 		return &os.LinkError{Op: op, Old: oldname, New: newname, Err: vfs.err.PermDenied}
 	}
 
